@@ -866,7 +866,7 @@ func TestC32(t *testing.T) {
 	run.Assume("'eventually written back' is judged as: no write-back task may disappear while the backend lacks the tag (violation) plus a 60 s progress bound after the backend is available (inconclusive when tripped); the manager runs on real time with 1-3 ms intervals because it has no clock seam")
 
 	r := run.Rand("cases")
-	ncases := run.N(300, 3000)
+	ncases := run.N(300, 2000)
 	cases := make([]caseSpec, ncases)
 	for i := range cases {
 		cases[i] = genCase(r, i)
